@@ -26,6 +26,7 @@ type Unit struct {
 	Loops    int
 	ReachCond string // normal-return condition; facts ∧ ReachCond must be satisfiable (vacuity guard)
 	Reach    string // sat | unknown | unsat(=vacuous) | n/a
+	Params   map[string]Val
 }
 
 func (p *Program) prelude(vc *VC, pkgs map[string]bool) {
@@ -108,6 +109,7 @@ func (p *Program) GenFunc(key string, opts GenOpts) *Unit {
 		}
 		u.VC = vc
 		u.ReachCond = fr.reachCond
+		u.Params = fr.params
 		u.Unsupported = dedup(fr.unsupported)
 		u.Loops = len(fr.loops)
 	}
